@@ -24,7 +24,8 @@
 (***************************************************************************)
 EXTENDS Integers, Sequences, FiniteSets, TLC
 
-CONSTANTS MaxN, NOps, MaxSend, Dev_NoTimerDrain, Dev_NoDoubleCheck
+CONSTANTS MaxN, NOps, MaxSend, Dev_NoTimerDrain, Dev_NoDoubleCheck,
+          Dev_NoEofRecheck     \* end-of-stream is returned without a second look at the buffer (the code before the repair of F19)
 
 VARIABLES ops, opi,          \* the reader's program: sequence of [n, timed]; index of the current Next
           rpc, rerr,         \* reader: pc, error the current wait is about to return ("none" while undecided)
@@ -88,8 +89,16 @@ RLoop ==     \* for inputBuffer.Len() < n
 RSt ==       \* switch c.status(closing)
     /\ rpc = "r_st"
     /\ IF closing = 2
-          THEN (IF Cur.timed THEN ViaRet("eof") ELSE EndWait("eof") /\ UNCHANGED <<rerr, timer>>)
+          THEN IF Dev_NoEofRecheck
+               THEN (IF Cur.timed THEN ViaRet("eof") ELSE EndWait("eof") /\ UNCHANGED <<rerr, timer>>)
+               ELSE rpc' = "r_st2" /\ UNCHANGED <<rets, wrs, opi, rerr, timer>>
           ELSE rpc' = (IF Cur.timed THEN "r_waitT" ELSE "r_wait") /\ UNCHANGED <<rets, wrs, opi, rerr, timer>>
+    /\ UNCHANGED <<ops, inlen, rt, closing, opst, ticked, pend, sent, peerClosed, detached, ppc, pk, pevhup, hpc>>
+
+RSt2 ==      \* closed by the peer: the last bytes may have been buffered after the length test: look again
+    /\ rpc = "r_st2"
+    /\ LET res == IF inlen >= Cur.n THEN "nil" ELSE "eof" IN
+       IF Cur.timed THEN ViaRet(res) ELSE EndWait(res) /\ UNCHANGED <<rerr, timer>>
     /\ UNCHANGED <<ops, inlen, rt, closing, opst, ticked, pend, sent, peerClosed, detached, ppc, pk, pevhup, hpc>>
 
 RWait ==     \* err = <-readTrigger
@@ -151,7 +160,7 @@ RRdone ==
     /\ rpc = "r_rdone" /\ opst' = 1 /\ NextOp
     /\ UNCHANGED <<ops, rerr, inlen, wrs, rt, closing, timer, ticked, pend, sent, peerClosed, detached, ppc, pk, pevhup, hpc, rets>>
 
-Reader == RLen0 \/ RWs \/ RLoop \/ RSt \/ RWait \/ RWaitT \/ RDbl \/ RTDrain \/ RNLen \/ RNSub \/ RRl \/ RRact \/ RRdo \/ RRl2 \/ RRdone
+Reader == RLen0 \/ RWs \/ RLoop \/ RSt \/ RSt2 \/ RWait \/ RWaitT \/ RDbl \/ RTDrain \/ RNLen \/ RNSub \/ RRl \/ RRact \/ RRdo \/ RRl2 \/ RRdone
 
 \* ---- poller ------------------------------------------------------------------------
 Readable == ~detached /\ (pend > 0 \/ peerClosed)
@@ -222,7 +231,7 @@ Next == Reader \/ Poller \/ Hup \/ PeerSend \/ PeerClose \/ TimerFire
 Spec == Init /\ [][Next]_vars
 
 \* the schedule point a goroutine is parked at
-RPt == CASE rpc \in {"r_len0", "r_loop", "r_dbl", "r_nlen", "r_rl", "r_rl2"} -> 31 [] rpc = "r_ws" -> 32 [] rpc \in {"r_st", "r_ract"} -> 2
+RPt == CASE rpc \in {"r_len0", "r_loop", "r_dbl", "r_nlen", "r_rl", "r_rl2", "r_st2"} -> 31 [] rpc = "r_ws" -> 32 [] rpc \in {"r_st", "r_ract"} -> 2
          [] rpc = "r_wait" -> 22 [] rpc = "r_waitT" -> 23 [] rpc = "r_tdrain" -> 26 [] rpc = "r_nsub" -> 30 [] rpc = "r_rdo" -> 10 [] rpc = "r_rdone" -> 11 [] OTHER -> 0
 PPt == CASE ppc = "p_fetch" -> 1001 [] ppc = "p_ev" -> 42 [] ppc = "p_do" -> 10 [] ppc \in {"p_add", "p_ra"} -> 30 [] ppc = "p_ws" -> 32 [] ppc = "p_trig" -> 20
          [] ppc = "p_det" -> 14 [] ppc = "p_done" -> 11 [] OTHER -> 0
@@ -235,9 +244,9 @@ TypeOK == inlen \in Nat /\ Len(rt) <= 1 /\ closing \in {0, 2} /\ opst \in {1, 2}
 Results == \A j \in 1 .. Len(rets) :
     /\ (rets[j].res = "nil" => rets[j].have >= ops[j].n)
     /\ (rets[j].res = "timeout" => rets[j].ticked /\ rets[j].have < ops[j].n)
-\* NOT an invariant of the code as it is (and not demanded by C07, which lets either outcome win when the last bytes and the peer's
-\* close arrive together): the loop tests the length first and the closing word second, so bytes that land between the two tests are
-\* answered with end-of-stream although they are buffered; the next read gets them.
+    /\ (rets[j].res = "eof" => rets[j].have < ops[j].n)
+\* (before the repair of F19 the loop tested the length first and the closing word second and answered bytes that landed between the two
+\* tests with end-of-stream although they were buffered: Dev_NoEofRecheck)
 EofOnlyWhenShort == \A j \in 1 .. Len(rets) : rets[j].res = "eof" => rets[j].have < ops[j].n
 \* the length never goes negative: LinkBuffer.Next after a successful wait always finds its bytes
 NeverShort == (rpc = "r_nsub") => inlen >= Cur.n
